@@ -197,7 +197,7 @@ PROPS['C10'] = {
                  'RQ.Push.C10_failingPatch', 'RQ.Push.C10_notAll_iff_failing', 'RQ.Spec.C10_spec_no_write', 'RQ.Spec.C10_spec_exit', 'RQ.Spec.C10_spec_failing'],
     'extra_modules': ['RQ.Props.C10Push'],
     'verdict': 'C10',
-    'jobs': push_jobs(['dry=50', 'inv=2'], ['dry=50', 'inv=3'], nq=4000) +
+    'jobs': push_jobs(['dry=50', 'inv=2', 'unsafe=10'], ['dry=50', 'inv=3', 'unsafe=10'], nq=4000) +
             [{'quick': ['pushsched', 'seed={seed}', 'n=900', 'perws=3', 'dry=100', 'fail=90', 'morefail=85'], 'thorough': ['pushsched', 'seed={seed}', 'n=30000', 'perws=6', 'dry=100', 'fail=90', 'morefail=85']}],
     'nontrivial': lambda l: '--dry-run' in l.split('|=>|')[0],
     'histogram': push_hist,
@@ -441,7 +441,10 @@ PROPS['C08'] = {
 
 
 PROPS['C18'] = {
-    'theorems': ['RQ.Push.C18_fault_is_error', 'RQ.Push.C18_success_means_no_fault', 'RQ.Push.C18_recorded_last'],
+    'theorems': ['RQ.Push.C18_fault_is_error', 'RQ.Push.C18_success_means_no_fault', 'RQ.Push.C18_recorded_last',
+                 'RQ.Par.C18_par_save_fault_is_error', 'RQ.Par.C18_par_driver_fault_is_error', 'RQ.Par.C18_par_fault_is_error', 'RQ.Par.C18_par_success_means_no_fault',
+                 'RQ.Par.C18_par_recorded_last', 'RQ.Par.C18_par_applied_unchanged', 'RQ.Par.C18_par_no_fault'],
+    'extra_modules': ['RQ.Props.C18Par'],
     'verdict': 'C18',
     'jobs': [{'quick': ['pushfault', 'seed={seed}', 'n=2000', 'perws=8'], 'thorough': ['pushfault', 'seed={seed}', 'n=60000', 'perws=64']},
              {'quick': ['pushfault', 'seed={seed}', 'n=1200', 'perws=8', 'threads=2,3,4'], 'thorough': ['pushfault', 'seed={seed}', 'n=30000', 'perws=64', 'threads=2,3,4,8']}],
@@ -467,8 +470,9 @@ PROPS['C18'] = {
 
 PROPS['C06'] = {
     'theorems': ['RQ.Par.C06_apply_phase', 'RQ.Par.C06_save_phase', 'RQ.Par.C06_error_index', 'RQ.Par.C06_apply_eq_sequential', 'RQ.Par.C06_parallel_eq_sequential_tree', 'RQ.Par.C06_queues_sorted', 'RQ.Par.C06_frame', 'RQ.Par.C06_local', 'RQ.Par.C06_commute', 'RQ.Par.C06_disjoint',
-                 'RQ.Par.C06_parallel_tight', 'RQ.Par.C06_parallel_outsidePc', 'RQ.Par.C06_parallel_files', 'RQ.Par.C06_par_refines_pushSpec', 'RQ.Par.C06_par_refines_pushSpec_via_seq'],
-    'extra_modules': ['RQ.Props.C06Refine'],
+                 'RQ.Par.C06_parallel_tight', 'RQ.Par.C06_parallel_outsidePc', 'RQ.Par.C06_parallel_files', 'RQ.Par.C06_par_refines_pushSpec', 'RQ.Par.C06_par_refines_pushSpec_via_seq',
+                 'RQ.Par.C06_workers_disjoint', 'RQ.Par.C06_worker_saves_alone', 'RQ.Par.C06_par_succeeds', 'RQ.Par.C06_par_is_pushSpec', 'RQ.Par.C06_par_exit_zero_iff', 'RQ.Par.C06_par_equals_seq_static'],
+    'extra_modules': ['RQ.Props.C06Refine', 'RQ.Props.C06Complete'],
     'verdict': 'C06',
     'jobs': [{'quick': ['pushsched', 'seed={seed}', 'n=900', 'perws=3', 'fail=75', 'morefail=70'], 'thorough': ['pushsched', 'seed={seed}', 'n=30000', 'perws=6', 'fail=75', 'morefail=70']}] +
             push_jobs(['threads=2,3,4,8,16', 'inv=2'], ['threads=2,3,4,8,16', 'inv=3'], nq=2500, nt=60000),
